@@ -150,6 +150,11 @@ class LDAPMessageParsableBase(ParsableBase):
 
     @classmethod
     def _parse_asn1(cls, parsable):
+        if bytes(parsable[1:2]) == b'\x80':
+            # only the definite form of length encoding is used (RFC 4511 5.1), and the indefinite form would hide
+            # from the caller how many bytes the message occupies
+            raise InvalidValue(parsable, cls)
+
         try:
             message = LDAPMessage.load(bytes(parsable))
             # ensure recursive parsing
